@@ -173,9 +173,17 @@ pub enum PendingCompletion {
 }
 
 impl PendingCompletion {
+    /// The value carried by a parked return/throw (none for break/continue)
+    pub fn value(&self) -> Option<&JsValue> {
+        match self {
+            PendingCompletion::Return(g) | PendingCompletion::Throw(g) => Some(&g.value),
+            PendingCompletion::Break { .. } | PendingCompletion::Continue { .. } => None,
+        }
+    }
+
     /// Copy for a saved VM state. The copy carries no guard of its own: `keep_alive` (the
     /// guard of the saved state, or of the VM rebuilt from it) roots the value instead.
-    fn duplicate(&self, keep_alive: &Guard<JsObject>) -> Self {
+    pub(crate) fn duplicate(&self, keep_alive: &Guard<JsObject>) -> Self {
         let copy_value = |guarded: &Guarded| {
             if let JsValue::Object(obj) = &guarded.value {
                 keep_alive.guard(obj.cheap_clone());
@@ -1044,6 +1052,8 @@ impl BytecodeVM {
                     saved_registers: Vec::new(),
                     saved_call_stack: Vec::new(),
                     saved_try_stack: Vec::new(),
+                    saved_env_stack: Vec::new(),
+                    saved_pending_completion: None,
                     yield_result_register: None,
                     func_env: None,
                     current_env: None,
@@ -1081,6 +1091,8 @@ impl BytecodeVM {
                     saved_registers: Vec::new(),
                     saved_call_stack: Vec::new(),
                     saved_try_stack: Vec::new(),
+                    saved_env_stack: Vec::new(),
+                    saved_pending_completion: None,
                     yield_result_register: None,
                     func_env: None,
                     current_env: None,
